@@ -232,6 +232,15 @@ func progForeach(sub *Program, par int64) *Program {
 		}}
 }
 
+// a loop step with a literal enabled value
+func progForeachEnabledLit(name string, lit any) *Program {
+	p := progForeach(subProg(), 2)
+	p.Name = name
+	p.Steps[0].Enabled = Lit{lit}
+	p.Outputs = append(p.Outputs, Output{"off", O("m", E("$.steps.loop.disabled.output.message"))})
+	return p
+}
+
 func progFanInN(n int) *Program {
 	p := &Program{Name: fmt.Sprintf("fanin%d", n)}
 	var fields []any
@@ -396,6 +405,7 @@ func catalogue() []*Program {
 		progDeployDep(),
 		progSumExpr(), progSumExpr2(), progSumInts(), progStopEnable(),
 		progEnabledLit("enabledlit-false", false), progEnabledLit("enabledlit-true", true), progEnabledLit("enabledlit-no", "no"),
+		progForeachEnabledLit("loopenabledlit-true", true), progForeachEnabledLit("loopenabledlit-off", "off"),
 		progSingle(), progChain(2), progChain(3), progFanIn(), progDiamond(), progMultiOut(), progMultiOut2(),
 		progWaitStarted(), progEnabled(), progEnabledChain(), progStopInput(), progStopProducer(), progDeployExpr(),
 		progOptional(), progSoftOptional(), progOptionalInput(), progOneOf(), progOneOf2(),
